@@ -148,6 +148,34 @@ def verification_conditions(name, mutable_arrays=("out",)):
         raise Unsupported(f"{name}: arguments {missing} are not covered by the contract")
     pre = contract["pre"](inp, gh)
     st0, hyps0 = init_state(vc, pre_stmts, inp, gh, contract)
+    # bind the contract's state variables: by name, or -- after a rename of locals -- by role
+    # (kind of object and position among the initialisations of that kind)
+    alias = {}
+    declared = cg.STATE_VARS.get(name)
+    if declared:
+        def kind(v):
+            return "dict" if isinstance(v, SDict) else "list" if isinstance(v, SList) else "counter" if isinstance(v, SCounter) else "arr" if isinstance(v, SArr) else "int"
+
+        code_vars = [(n, kind(v)) for n, v in st0.items() if n not in inp]
+        for kd in {k_ for _, k_ in declared}:
+            cn = [n for n, k_ in declared if k_ == kd]
+            kn = [n for n, k_ in code_vars if k_ == kd]
+            if cn == kn:
+                continue
+            if len(cn) != len(kn):
+                raise Unsupported(f"{name}: the contract expects {len(cn)} state variable(s) of kind {kd} ({cn}), the code initialises {kn}")
+            alias.update({c: k_ for c, k_ in zip(cn, kn) if c != k_})
+    mutable_arrays = tuple(alias.get(n, n) for n in mutable_arrays)
+    contract = dict(contract)
+    for fn in ("inv", "post", "exc_post"):
+        if fn in contract and alias:
+            def wrap(f):
+                def g(inp_, gh_, st_, *rest):
+                    return f(inp_, gh_, {**st_, **{c: st_[k_] for c, k_ in alias.items() if k_ in st_}}, *rest)
+
+                return g
+
+            contract[fn] = wrap(contract[fn])
     H = [f for _, f in pre] + hyps0
     out = []
     k0 = z3.IntVal(0)
@@ -196,12 +224,20 @@ def verification_conditions(name, mutable_arrays=("out",)):
     for cname, f in contract["post"](inp, gh, SN):
         out.append((f"{name}: post {cname}", [*HN, z3.Not(f)]))
     # vacuity guard handled by the bounded instance (quantified hypotheses are not decidable for sat)
-    return out, {"paths": len(paths), "normal_paths": n_normal, "where": vc.where(loop), "n_pre": len(pre)}
+    if alias:
+        tag = " [state variables bound by role: " + ", ".join(f"{c}->{k_}" for c, k_ in sorted(alias.items())) + "]"
+        out = [(n + tag, q) for n, q in out]
+    return out, {"paths": len(paths), "normal_paths": n_normal, "where": vc.where(loop), "n_pre": len(pre), "alias": alias}
 
 
 def discharge(vcs, timeout_s=30):
     res = []
     for name, q in vcs:
         r = solve.check(q, timeout_s)
-        res.append((name, {"unsat": "discharged", "sat": "refuted"}.get(r.status, "unknown"), r.backend, r.seconds, r.reason))
+        st = {"unsat": "discharged", "sat": "refuted"}.get(r.status, "unknown")
+        reason = r.reason
+        if st == "refuted" and "[state variables bound by role" in name:
+            # the binding of renamed locals is a guess: a failed obligation is then undecided, not a violation
+            st, reason = "unknown", "obligation fails under a role-based binding of renamed state variables"
+        res.append((name, st, r.backend, r.seconds, reason))
     return res
